@@ -16,6 +16,7 @@ fn expand_case(db: &SchedulesDb, origin: &str) -> Case {
     let results: Vec<Vec<Uuid>> = ids.iter().map(|i| db.get_year_as_day_sch(*i)).collect();
     let total: usize = results.iter().map(|v| v.len()).sum();
     Case {
+        post: String::new(),
         term: format!(
             "(C17Expand {}\n {} {})",
             dbt,
@@ -96,6 +97,7 @@ fn dates_case(dates: &[(u32, u32)], findings: &mut Vec<serde_json::Value>) -> Op
             let y = m.schedules.year.iter().find(|y| y.name == "y0")?;
             let counts: Vec<i128> = y.values.iter().map(|v| v.1 as i128).collect();
             Some(Case {
+                post: String::new(),
                 term: format!(
                     "(C17Dates {} {})",
                     coq::list(dates, |(d, m)| format!("({}, {})", coq::z(*d as i128), coq::z(*m as i128))),
@@ -121,6 +123,7 @@ fn week_case(names: &[usize], findings: &mut Vec<serde_json::Value>) -> Option<C
             let idx = |id: Uuid| m.schedules.day.iter().position(|d| d.id == id).and_then(|p| m.schedules.day[p].name[1..].parse::<usize>().ok());
             let vals: Vec<(usize, u32)> = w.values.iter().map(|(i, c)| (idx(*i).unwrap_or(99), *c)).collect();
             Some(Case {
+                post: String::new(),
                 term: format!(
                     "(C17Week {} {})",
                     coq::list(names, |k| coq::n(*k + 1)),
@@ -143,6 +146,7 @@ fn day_case(vals: &[f32], findings: &mut Vec<serde_json::Value>) -> Option<Case>
         Ok(m) => {
             let ds = m.schedules.day.iter().find(|w| w.name == "d0")?;
             Some(Case {
+                post: String::new(),
                 term: format!("(C17Day {} {})", coq::list(vals, |v| coq::q(*v)), coq::list(&ds.values, |v| coq::q(*v))),
                 json: json!({"kind": "day", "values": vals, "converted": ds.values}),
                 nontrivial: true,
@@ -164,6 +168,7 @@ fn props_case(m: &Model, origin: &str) -> Option<Case> {
     let lds: Vec<_> = p.loads.iter().collect();
     let fin = |x: f32| if x.is_finite() { Some(x) } else { None };
     Some(Case {
+        post: String::new(),
         term: format!(
             "(C17Props {}\n {} {} {} {})",
             mt,
